@@ -22,6 +22,12 @@ with other values, read, and edited before, or deep copies of objects that were 
 `_apply_copy`).  The two places of hooks.py / the copy sites this rests on are translated too (driver/translate/c16_template.py:
 the calling convention of `Hook.__get__` for callable explicit values, the attribute sets `BaseRollPass.Roll.__init__` /
 `Unit.Profile.__init__` take over from the template); the interpreter runs callables, the template's history and the copy.
+Two objects from one source and host classes (C16-10 / C16-11): every clause also on an object AFTER a second object was built
+from the same template / from what the first object's copy site made of its template (a pass built from the working roll of
+another pass) with other supplied values and read (`_SIB`, `_apply_sibling`, `_sibling_variants`); every roll-of-a-pass world on
+`TwoRollPass.Roll` AND `ThreeRollPass.Roll`, every pass-unit combination on both pass classes, every member supplied (neutral
+angle as well as neutral point); the resolution chains of `ThreeRollPass.Roll` are compared with the generated table too
+(`ALSO_REAL`).
 """
 import copy
 import functools
@@ -171,7 +177,16 @@ RULE = ("every group (unit length/duration/velocity; roll radius/diameter; rotat
         "values, possibly read again (2 such histories + 1 read-only history per template kind and world); deep copies "
         "(with the pass / sequence the object lives in) of the never-read object, of the object after reads, and the "
         "original after its deep copy was re-supplied and read; the members must read what they read on the directly "
-        "built object and every clause applies.")
+        "built object and every clause applies. Two objects from one source: for every world whose builder hands a template to a "
+        "copy site, a SECOND object is built by the same builder with the values of another draw and a random non-empty subset "
+        "of the members supplied - from the same template object, and from what the first object's copy site made of it (a pass "
+        "built from the working roll of the first pass, a unit given the in-profile of the first) -, its members and the "
+        "modelled hooks of its linked objects are read (in 30 % after a random selection of the first object's hooks was "
+        "read), THEN the first object is read: every clause, round trips, and what it reads when built alone. Host classes: the "
+        "roll-of-a-pass worlds (radius, velocity, neutral groups) exist on TwoRollPass.Roll and on ThreeRollPass.Roll, the "
+        "pass-unit worlds on both pass classes with the neutral plane given as point / as angle / not at all and with / "
+        "without rotational frequency, the unit group on CoolingPipe in four placements; of the side-quantity scenarios of "
+        "these repeated worlds the quick tier runs a random half.")
 ASSUMPTIONS = [
     "IEEE rounding: consistency and round trips are theorems over the reals; on floats they are checked with rtol 1e-9",
     "hook implementation bodies outside the translatable subset (length_from_roll_pass_positions, "
@@ -190,6 +205,9 @@ ASSUMPTIONS = [
     "unit builds from the one handed on, deep copies of never-read / read-but-unedited objects; an object that was read and "
     "THEN re-supplied keeps its stale cache until the core clears it (and so does its deep copy): no demand. copy.copy of a "
     "hook host shares the __cache__ dictionary with the original (observed, not generated)",
+    "two objects from one source: only the object built FIRST is judged (after the second was built and read); the second is "
+    "built on the first one's template / product with values of another draw, so it may be over-completely and inconsistently "
+    "supplied - no demand on it; the interpreter has no second object (the first is a fresh object to it)",
     "presence (set / cached / computable) of quantities on linked objects is measured once per scenario, after a first read "
     "on the linked object if the scenario has one; the interpreter does not follow changes of a linked object's cache "
     "during the reads",
@@ -467,6 +485,16 @@ def _tmpl(vals, factory, fixed, kw, what="Roll"):
     """the template object a builder hands to a copy site: `factory(**fixed, **kw)`, or - in a template-history scenario -
     an object that ends up with exactly these explicit values after a history of other values, reads and edits"""
     h = (vals or {}).get("@hist")
+    if h and h.get("site") == "sibling" and _SIB.get("phase") == "first":
+        t = factory(**fixed, **kw)
+        _SIB["made"].append((what, t))
+        return t
+    if h and h.get("site") == "sibling" and _SIB.get("phase") == "second" and _SIB["i"] < len(_SIB["made"]):
+        # the SECOND object is built from the source of the first: the very template object the first one was built from, or
+        # the object the first one's copy site made of it (the working roll of the first pass, the in-profile of the first unit)
+        what0, t0 = _SIB["made"][_SIB["i"]]
+        _SIB["i"] += 1
+        return t0 if h["mode"] == "same-template" else _product(_SIB["obj"], what0)
     if not h or h.get("site") != "template":
         return factory(**fixed, **kw)
     if h.get("probe") is not None:
@@ -525,6 +553,61 @@ def _tmpl(vals, factory, fixed, kw, what="Roll"):
     _LAST_TMPL.update(obj=t, what=what, initial={k: v for k, v in initial.items() if isinstance(v, (int, float))},
                       initial_names=sorted(initial), ops=ops, reads=reads, final=dict(kw))
     return t
+
+
+# Two objects built from ONE source.  A template object may be handed to a copy site more than once (two stands equipped with
+# the same roll data), and what a copy site made of it may be handed on again (a second pass built from the working roll of the
+# first: `RollPass(first.roll, velocity=...)`; the in-profile of one unit handed to another unit).  By the property each of the
+# objects is a fresh object given the source's EXPLICIT values plus what it is supplied with itself; what the other one is
+# supplied with and what is read there must not show.  A scenario may carry
+#   vals["@hist"] = {"site": "sibling", "mode": "same-template" | "product", "seed": n, "other": {consistent values of the
+#                    world drawn from another seed}, "other_sup": [members the second object is supplied with], "names": [...],
+#                    "read_first": bool}
+# the object under test is built as always (every template its builder creates is remembered); if `read_first`, a random
+# selection of `names` is read on it; then the builder runs a SECOND time with the values `other` (another pass velocity, other
+# supplied members) while `_tmpl` hands out the first object's templates ("same-template") or the objects the first copy sites made
+# of them ("product"); the members of the second object and the modelled hooks of its linked objects are read; THEN the first
+# object is judged: every clause, and its members read what they read on the object built alone.
+_SIB = {}
+
+
+def _product(obj, what):
+    """what the copy site of the first object made of its template `what`"""
+    pc = _core()
+    if what == "Roll":
+        return obj if isinstance(obj, pc.Roll) else obj.roll
+    return obj.in_profile
+
+
+def _apply_sibling(world, obj, keep, h):
+    from pyroll.core.hooks import HookHost
+    rng = random.Random(h["seed"])
+    log = []
+    if h.get("read_first"):
+        _hist_reads(rng, obj, list(h["names"]), log, "o")
+    _SIB.update(phase="second", i=0, obj=obj)
+    vals_s = dict(h["other"])
+    vals_s["@hist"] = h
+    try:
+        sib, keep_s = world._build({m: h["other"][m] for m in h["other_sup"]}, vals_s)
+    finally:
+        _SIB["phase"] = None
+    log.append("o2 = a second object built by the same builder with the values `other`, supplied with "
+               f"{sorted(h['other_sup']) or 'nothing'}, " + {
+                   "same-template": "from the SAME template object(s) the first one was built from",
+                   "product": "from what the first object's copy site made of its template (first.roll / first.in_profile)"}[h["mode"]])
+    modelled = ALL_MEMBERS | {x for c in CLASSES.values() for x in c[2]}
+    hosts = [("o2", sib)]
+    for link in ("roll", "roll_pass", "in_profile"):
+        r = _safe(lambda: getattr(sib, link))
+        if r[0] == "V" and isinstance(r[1], HookHost):
+            hosts.append(("o2." + link, r[1]))
+    for (tag, o) in hosts:
+        for n in ([m for m in world.members if o is sib] + [n for n in _hook_names(o) if n in modelled and not (o is sib and n in world.members)]):
+            r = _safe(lambda: getattr(o, n))
+            log.append(f"read {tag}.{n}" + ("" if r[0] == "V" else f" -> {type(r[1]).__name__}"))
+    h["ops"] = log + ["the FIRST object is the object under test"]
+    return obj, keep + [sib, keep_s]
 
 
 def _copy_of(obj, keep):
@@ -674,15 +757,24 @@ class World:
         # cross(got, sup_names, vals) -> [(derived member, what is read back on a fresh LINKED pair, observed, original)]:
         # round trips whose way back leads over another object (pass velocity -> roll of a fresh pass)
         self.cross = cross
+        self.secondary = False
 
     def build(self, sup, vals):
         """fresh object under test (+ keep-alive list); a side value `vals["@aux"]` (see `_apply_side`) is put on it"""
-        obj, keep = self._build(sup, vals)
+        h = vals.get("@hist")
+        sib = bool(h) and h.get("site") == "sibling"
+        if sib:
+            _SIB.update(phase="first", made=[], i=0, obj=None)
+        try:
+            obj, keep = self._build(sup, vals)
+        finally:
+            _SIB["phase"] = None
         _apply_side(obj, vals.get("@aux"))
         _apply_form(obj, vals.get("@form"), sup)
-        h = vals.get("@hist")
         if h and h.get("site") == "deepcopy":
             obj, keep = _apply_copy(obj, keep, h, vals, self.members)
+        if sib:
+            obj, keep = _apply_sibling(self, obj, keep, h)
         return obj, keep
 
     def known(self, twin, aux=None):
@@ -755,6 +847,8 @@ def _worlds():
             W.append(mk_transport("Transport", inprof, place))
     W.append(mk_transport("CoolingPipe", "vel", "alone"))
     W.append(mk_transport("CoolingPipe", "novel", "located"))
+    W.append(mk_transport("CoolingPipe", "none", "last"))
+    W.append(mk_transport("CoolingPipe", "vel", "located"))
 
     # ---- unit group on roll passes ---------------------------------------------------------------------------------
     def mk_pass_unit(cls_name, with_rf, neutral="none"):
@@ -823,6 +917,10 @@ def _worlds():
     # ... with the neutral plane given on the roll, as neutral point or as neutral angle
     W += [mk_pass_unit("TwoRollPass", True, "neutral_point"), mk_pass_unit("TwoRollPass", True, "neutral_angle"),
           mk_pass_unit("ThreeRollPass", True, "neutral_point"), mk_pass_unit("TwoRollPass", False, "neutral_point")]
+    # ... every combination also on the OTHER pass class (an implementation registered on one concrete class only - `ThreeRollPass`,
+    # `ThreeRollPass.Roll` - shadows the inherited one there and nowhere else) and with the member that is rarely supplied
+    W += [mk_pass_unit("ThreeRollPass", False), mk_pass_unit("ThreeRollPass", True, "neutral_angle"),
+          mk_pass_unit("ThreeRollPass", False, "neutral_point"), mk_pass_unit("TwoRollPass", False, "neutral_angle")]
 
     # ---- roll radius / diameter ------------------------------------------------------------------------------------
     def rad_values(rng, aux=None):
@@ -836,16 +934,27 @@ def _worlds():
     W.append(World("Roll/radius", "Roll", "radius", rad_values,
                    lambda sup, vals: (pc.Roll(groove=_groove(pc), **sup), []), lambda o: set(), rad_rules, rad_rel))
 
-    def mk_pass_roll(sup, vals, roll_kw=None, pass_kw=None):
-        roll = _tmpl(vals, pc.Roll, {"groove": _groove(pc)}, dict(**(roll_kw or {}), **sup))
-        rp = pc.TwoRollPass(roll=roll, gap=2e-3, **(pass_kw or {}))
+    # the roll of a pass lives on TWO concrete classes: `TwoRollPass.Roll` and `ThreeRollPass.Roll` (worlds `PassRoll/...` and
+    # `PassRoll3/...`; one model class: on the unchanged tree both resolve every modelled hook through BaseRollPass.Roll and Roll,
+    # which `_check_registration` verifies for both)
+    def groove_of(kind):
+        return _groove(pc) if kind == "" else pc.RoundGroove(r1=3e-3, r2=12.5e-3, depth=5e-3, pad_angle=30)
+
+    def mk_pass_roll(sup, vals, roll_kw=None, pass_kw=None, kind=""):
+        roll = _tmpl(vals, pc.Roll, {"groove": groove_of(kind)}, dict(**(roll_kw or {}), **sup))
+        if kind == "":
+            rp = pc.TwoRollPass(roll=roll, gap=2e-3, **(pass_kw or {}))
+        else:
+            rp = pc.ThreeRollPass(roll=roll, inscribed_circle_diameter=22e-3, **(pass_kw or {}))
         return rp.roll, [rp]
-    W.append(World("PassRoll/radius", "PassRoll", "radius", rad_values, mk_pass_roll, lambda o: set(), rad_rules, rad_rel))
+    for kind in ("", "3"):
+        W.append(World(f"PassRoll{kind}/radius", "PassRoll", "radius", rad_values,
+                       (lambda kind: lambda sup, vals: mk_pass_roll(sup, vals, kind=kind))(kind), lambda o: set(), rad_rules, rad_rel))
 
     # ---- rotational frequency / surface velocity / working velocity -------------------------------------------------
-    def vel_values(rng, aux=None):
+    def vel_values(rng, aux=None, kind=""):
         R, rf = rng.uniform(0.05, 0.5), _logu(rng)
-        gf = _groove(pc).groove_factor
+        gf = groove_of(kind).groove_factor
         a = rng.uniform(0.02, 0.3)
         # the working radius is a quantity of its own: nominal_radius - groove_factor unless the roll is given another one
         wr = aux["value"] if aux and aux["mode"] in ("explicit", "hook") and aux["name"] == "working_radius" else R - gf
@@ -878,7 +987,10 @@ def _worlds():
                      lambda o: {n for n in ("nominal_radius", "nominal_diameter") if _given(o, n)}, vel_rules, vel_rel)
     W += [mk_roll_vel(r) for r in ("nr", "nd", "none")]
 
-    def mk_passroll_vel(pass_vel, neutral, exit_point=False):
+    def vel_values3(rng, aux=None):
+        return vel_values(rng, aux, "3")
+
+    def mk_passroll_vel(pass_vel, neutral, exit_point=False, kind=""):
         def build(sup, vals):
             rkw = {"nominal_radius": vals["R"]}
             ang = 0.0                                       # exit angle: exit_point = 0 by default ...
@@ -894,7 +1006,7 @@ def _worlds():
                 ang = vals["neutral_angle"]
             if pass_vel:
                 pkw["velocity"] = vals["working_velocity"] * math.cos(ang)
-            return mk_pass_roll(sup, vals, rkw, pkw)
+            return mk_pass_roll(sup, vals, rkw, pkw, kind)
 
         def known(o):
             k = {n for n in ("nominal_radius", "nominal_diameter", "neutral_angle", "neutral_point") if _given(o, n)}
@@ -902,10 +1014,11 @@ def _worlds():
                 k.add("roll_pass.velocity")
             return k
         rules = vel_rules + [("working_velocity", ["roll_pass.velocity", "working_radius"])]
-        return World(f"PassRoll/vel/{'pv' if pass_vel else 'nopv'}/{neutral}" + ("/exit_point" if exit_point else ""),
-                     "PassRoll", "rollvel", vel_values, build, known, rules, vel_rel)
-    W += [mk_passroll_vel(pv, ne) for pv in (False, True) for ne in ("none", "neutral_angle", "neutral_point")]
-    W.append(mk_passroll_vel(True, "none", exit_point=True))     # a non-zero exit angle enters the pass-velocity direction
+        return World(f"PassRoll{kind}/vel/{'pv' if pass_vel else 'nopv'}/{neutral}" + ("/exit_point" if exit_point else ""),
+                     "PassRoll", "rollvel", vel_values3 if kind else vel_values, build, known, rules, vel_rel)
+    for kind in ("", "3"):
+        W += [mk_passroll_vel(pv, ne, kind=kind) for pv in (False, True) for ne in ("none", "neutral_angle", "neutral_point")]
+        W.append(mk_passroll_vel(True, "none", exit_point=True, kind=kind))     # a non-zero exit angle enters the pass-velocity direction
 
     # ---- neutral point / neutral angle -----------------------------------------------------------------------------------
     def neu_rel(obj, got):
@@ -915,11 +1028,12 @@ def _worlds():
                    math.sin(got["neutral_angle"]) * wr[1])
     neu_rules = [("working_radius", ["nominal_radius"]), ("neutral_angle", ["neutral_point", "working_radius"]),
                  ("neutral_point", ["neutral_angle", "working_radius"])]
-    for radius in ("nr", "none"):
-        W.append(World(f"PassRoll/neutral/{radius}", "PassRoll", "neutral", vel_values,
-                       (lambda radius: lambda sup, vals: mk_pass_roll(
-                           sup, vals, {"nominal_radius": vals["R"]} if radius == "nr" else {}))(radius),
-                       lambda o: {n for n in ("nominal_radius",) if _given(o, n)}, neu_rules, neu_rel))
+    for kind in ("", "3"):
+        for radius in ("nr", "none"):
+            W.append(World(f"PassRoll{kind}/neutral/{radius}", "PassRoll", "neutral", vel_values3 if kind else vel_values,
+                           (lambda radius, kind: lambda sup, vals: mk_pass_roll(
+                               sup, vals, {"nominal_radius": vals["R"]} if radius == "nr" else {}, None, kind))(radius, kind),
+                           lambda o: {n for n in ("nominal_radius",) if _given(o, n)}, neu_rules, neu_rel))
 
     # ---- cooling pipe ------------------------------------------------------------------------------------------------------
     def pipe_values(rng, aux=None):
@@ -974,6 +1088,12 @@ def _worlds():
         return World(f"{cls_name}/target", cls_name, "target", values, lambda sup, vals: (bare(vals, **sup), []),
                      lambda o: set(), rules, rel)
     W += [mk_target("TwoRollPass"), mk_target("ThreeRollPass")]
+    # worlds that repeat a situation on the other concrete host class / with the rarely supplied member: plain scenario, forms,
+    # histories and second objects in full; of their side-quantity scenarios the quick tier runs a random half per run
+    second = {"ThreeRollPass/unit/norf", "ThreeRollPass/unit/rf/neutral_angle", "ThreeRollPass/unit/norf/neutral_point",
+              "TwoRollPass/unit/norf/neutral_angle", "CoolingPipe/none/last", "CoolingPipe/vel/located"}
+    for w in W:
+        w.secondary = w.name in second or w.name.startswith("PassRoll3/")
     return W
 
 
@@ -1099,6 +1219,11 @@ def _py_chain(table, mro, hook):
     return out
 
 
+# further REAL classes served by a model class: their resolution chains must be the model's too (a function registered on such a
+# class only - e.g. on ThreeRollPass.Roll - would be outside every generated table)
+ALSO_REAL = {"PassRoll": ["ThreeRollPass.Roll"]}
+
+
 def _check_registration(ctx, pc, tables):
     """the chain the interpreter uses (tier, MRO, newest first over the generated table) against the real
     `Hook.functions` of the real class; returns {class: {(host, fn): HookFunction}}"""
@@ -1120,6 +1245,15 @@ def _check_registration(ctx, pc, tables):
             if real != model:
                 ctx.tie_breaks.append(f"registration: resolution chain of {cname}.{hook} is {real}, the generated table "
                                       f"gives {model}")
+            for path in ALSO_REAL.get(cname, []):
+                cls2 = pc
+                for part in path.split("."):
+                    cls2 = getattr(cls2, part)
+                h2 = getattr(cls2, hook, None)
+                real2 = [(f.hook.owner.__qualname__, f.name) for f in h2.functions] if h2 is not None and hasattr(h2, "functions") else None
+                if real2 != model:
+                    ctx.tie_breaks.append(f"registration: resolution chain of {path}.{hook} is {real2}, the generated table of "
+                                          f"{cname} gives {model}")
     return funcs
 
 
@@ -1227,7 +1361,7 @@ def _close(a, b, rtol=RTOL):
 
 
 def _case_replay(world, sup_names, order, vals):
-    rp = {"world": world.name, "class": CLASSES[world.cls][0], "supplied": {m: vals[m] for m in sup_names},
+    rp = {"world": world.name, "class": "ThreeRollPass.Roll" if world.name.startswith("PassRoll3/") else CLASSES[world.cls][0], "supplied": {m: vals[m] for m in sup_names},
           "read_order": list(order),
           "values": {k: ({a: b for a, b in v.items() if a not in ("ops", "probe", "assigned")} if k in ("@hist", "@form") else v)
                      for k, v in vals.items()},
@@ -1256,6 +1390,8 @@ def _case_replay(world, sup_names, order, vals):
         rp["history"] = {"site": hist["site"], "mode": hist["mode"], "ops": hist.get("ops", [])}
         rp["how"] += ("  -- w.build lets every template object (the Roll handed to the pass, the profile handed on) go through "
                       "values['@hist'] before the copy site sees it" if hist["site"] == "template" else
+                      "  -- w.build builds a SECOND object from the same source (values['@hist']: mode, the other values, what it is "
+                      "supplied with) and reads it before the first one is read" if hist["site"] == "sibling" else
                       "  -- w.build deep-copies the object as values['@hist'] says")
     return rp
 
@@ -1264,7 +1400,7 @@ def _side_tag(vals):
     if vals.get("@form"):
         return "/callable"
     if vals.get("@hist"):
-        return "/template-history" if vals["@hist"]["site"] == "template" else "/copied"
+        return {"template": "/template-history", "sibling": "/shared-source"}.get(vals["@hist"]["site"], "/copied")
     aux = vals.get("@aux")
     return "" if not aux else {"read-first": "/side-read", "none": "/given-none"}.get(aux["mode"], "/side-value")
 
@@ -1292,7 +1428,10 @@ def _scenario(ctx, world, vals, funcs, tables, lines, pending, only=None, n_orde
     if hist:
         side = {"template": f" [built from a template with a history ({hist['mode']})]",
                 "deepcopy": {"fresh": " [deep copy of the never-read object]", "read": " [deep copy of the object after reads]",
-                             "isolated": " [original, after a deep copy of it was re-supplied and read]"}.get(hist["mode"], "")
+                             "isolated": " [original, after a deep copy of it was re-supplied and read]"}.get(hist["mode"], ""),
+                "sibling": " [after a second object was built from " + ("the same template" if hist["mode"] == "same-template" else
+                                                                         "what this object's copy site made of its template")
+                           + f" with other values ({', '.join(sorted(hist.get('other_sup', []))) or 'nothing'} supplied) and read]",
                 }[hist["site"]]
     variant = ([aux["name"], aux["mode"]] if aux else []) + ([form["name"], form["scope"], form.get("seed")] if form else []) \
         + ([hist["site"], hist["mode"], hist["seed"]] if hist else [])
@@ -1306,6 +1445,7 @@ def _scenario(ctx, world, vals, funcs, tables, lines, pending, only=None, n_orde
         or (aux["mode"] == "none" and linked)))
     # a deep copy of an object that has been read is not a fresh object (its cache is copied): implementation only
     use_model0 = use_model0 and not (hist and hist["site"] == "deepcopy" and hist["mode"] == "read")
+    use_model0 = use_model0 and not (hist and hist["site"] == "sibling" and hist.get("read_first"))
     all_orders = list(itertools.permutations(members))
     for k in range(len(members) + 1):
         for sup_names in itertools.combinations(members, k):
@@ -1448,6 +1588,7 @@ def _scenario(ctx, world, vals, funcs, tables, lines, pending, only=None, n_orde
                                 ("form-dependent", "the same values are supplied as plain numbers") if form else
                                 ("history-dependent", "the object is built from a template that was created with these "
                                                       "explicit values and never touched") if hist and hist["site"] == "template" else
+                                ("sibling-dependent", "no second object is built from the same source") if hist and hist["site"] == "sibling" else
                                 ("copy-differs", "the object is built directly with these explicit values") if hist else
                                 ("none-is-not-absent", f"{aux['name']} is not mentioned at all") if aux["mode"] == "none" else
                                 ("order-dependent", f"{aux['name']} has not been read before"))
@@ -1713,6 +1854,27 @@ def _history_variants(ctx, world, vals, plain):
     return out
 
 
+def _sibling_variants(ctx, world, vals, plain):
+    """the scenarios of one world in which a SECOND object is built from the source of the object under test (see `_SIB`): for
+    every world whose builder hands a template to a copy site, the second object built from the same template and from the
+    first object's product, supplied with other values (a random non-empty subset of the members, values of another draw)"""
+    per, own = _history_names(world, vals)
+    if not per:
+        return []
+    few = len(world.members) <= 2
+    out = []
+    for mode in ("product", "same-template"):
+        other = world.values(random.Random(ctx.rng.getrandbits(48)), None)
+        other = {k: v for k, v in other.items() if isinstance(v, float)}
+        k = ctx.rng.randint(1, len(world.members))
+        v2 = dict(vals)
+        v2["@hist"] = {"site": "sibling", "mode": mode, "seed": ctx.rng.getrandbits(32), "other": other,
+                       "other_sup": sorted(ctx.rng.sample(list(world.members), k), key=world.members.index),
+                       "names": own, "read_first": bool(own) and ctx.rng.random() < 0.3}
+        out.append((v2, None if few else 1, plain))
+    return out
+
+
 def _check_copy_sites(ctx, pc):
     """(K for the generated `copy_*`) the explicit names a copy site puts into the fresh object, predicted from the generated
     sources, against the real sites - on a template that carries explicit values, a cached value and a re-supplied one"""
@@ -1768,7 +1930,11 @@ def run(ctx):
                 _scenario(ctx, w, vals, funcs, tables, lines, pending, record=plain)
                 # (forms and histories: in every second repetition - thorough tier 6 of 12 - to stay inside the time budget)
                 more = (_form_variants(ctx, w, vals, plain) + _history_variants(ctx, w, vals, plain)) if rep % 2 == 0 else []
-                for (vals2, n_orders, reference) in _side_variants(ctx, w, vals, seed, plain, tables) + more:
+                more = _sibling_variants(ctx, w, vals, plain) + more
+                sides = _side_variants(ctx, w, vals, seed, plain, tables)
+                if w.secondary and ctx.tier == "quick" and not ctx.extended:
+                    sides = [v for v in sides if ctx.rng.random() < 0.5]
+                for (vals2, n_orders, reference) in sides + more:
                     _scenario(ctx, w, vals2, funcs, tables, lines, pending, n_orders=n_orders, reference=reference)
         _linked_instances(ctx)
         _check_copy_sites(ctx, pc)
@@ -1776,7 +1942,7 @@ def run(ctx):
         _compare(ctx, lines, pending)
     # the driver reports the first few distinct keys: put one key per kind of failure first
     prio = ["wrong-error", "linked-instances", "slow-failure", "invented", "supplied-changed", "marks-left", "inconsistent",
-            "order-dependent", "roundtrip", "underivable", "history-dependent", "copy-differs", "form-dependent"]
+            "order-dependent", "roundtrip", "underivable", "sibling-dependent", "history-dependent", "copy-differs", "form-dependent"]
     def rank(v):
         kind = v[0].split(":")[-1].split("/")[0]
         return (prio.index(kind) if kind in prio else 99, v[0])
